@@ -12,6 +12,7 @@
 //     e  vita::run(ind, example)             s  one src_interpreter<i_mep> object, run(example)
 //     k  vita::run(ind.get_block(l), ex)     l  the same src_interpreter object, run_locus(l)
 //     L  one reg_lambda_f<i_mep> object, operator()(example)
+//     C  that object replaced by a copy of itself, then operator()(example)
 // Output (one line):
 //   C <row>:<cat>:<argcats|-> ... {| R <res> F <res|-> S <state|->}*
 //   R   result of the run            F  result of the same run on a FRESH interpreter
@@ -268,6 +269,19 @@ std::string do_case(const std::vector<std::string> &w)
     else if (mode == "L")
     {
       if (!lam) lam = std::make_unique<reg_lambda_f<i_mep>>(ind);
+      dataframe::example e;
+      e.input = ex;
+      r = guarded([&] { return (*lam)(e); });
+      s = show_state(lam->int_);
+      f = guarded([&] { return run(ind, ex); });
+    }
+    else if (mode == "C")
+    {
+      // a copy of the (possibly used) lambda replaces it: the copy must own a
+      // working interpreter bound to its own individual
+      if (!lam) lam = std::make_unique<reg_lambda_f<i_mep>>(ind);
+      auto copy(std::make_unique<reg_lambda_f<i_mep>>(*lam));
+      lam = std::move(copy);
       dataframe::example e;
       e.input = ex;
       r = guarded([&] { return (*lam)(e); });
